@@ -59,7 +59,7 @@ func (World) Rule(prop string) string {
 }
 
 func (World) Budget(prop, tier string) int {
-	q := map[string]int{"C09": 6000, "C10": 2500}[prop]
+	q := map[string]int{"C09": 6000, "C10": 3000}[prop]
 	if tier == "thorough" {
 		return q * 30
 	}
